@@ -279,6 +279,7 @@ fn run_case<'a>(ctx: &'a Ctx, case: u64, acc: &'a mut Acc) -> CaseFut<'a> {
                     verifying_key: a.verifying_key.clone(),
                     signature: a._signature.clone(),
                     entity_name: None,
+            enable_full_text: false,
                 };
                 acc.count("pairs_checked", 1);
                 acc.count("class/kind/node-signature-on-deletion-record", 1);
